@@ -390,6 +390,27 @@ def hostile_event(kind, loop, rnd, prepared=False):
                                                                               'inner': [{'t': 33, 'data': b'\x00'}]}) if False else data
             return udp(data)
         return udp(probes.seal(sa_b, 37, False, mid, inner))
+    if kind == 'auth_odd_child_spi':
+        # authenticated but malformed, and IN the window: the legitimate peer's keys seal a CREATE_CHILD_SA request that is acceptable in every respect
+        # (the daemon's own proposal, selectors, mode) except that the CHILD_SA SPI in the proposal is not four octets long - the negotiation gets as far
+        # as the kernel.  Whatever becomes of that IKE_SA (the session takes another course: only survival counts), the loop goes on and answers
+        peer_a = probes.peer_sa_of(w, sa_b) if sa_b is not None else None
+        if peer_a is None or sa_b.state.name != 'ESTABLISHED' or peer_a.state.name != 'ESTABLISHED' or not peer_a.child_sas:
+            return hostile_event('auth_malformed', loop, rnd)
+        loop.own_teardown = True
+        conf = peer_a.configuration.protect[0]
+        num = lambda x: int(getattr(x, 'value', x))
+        prop = {'num': 1, 'proto': num(conf.proposal.protocol_id), 'spi': rnd.choice((b'\x61' * 8, b'', b'\x62' * 3, b'\x63' * 5)),
+                'transforms': [{'type': num(t.type), 'id': num(t.id), 'keylen': t.keylen} for t in conf.proposal.transforms if num(t.type) != 4]}
+        kid = peer_a.child_sas[0]
+        ts = lambda t: {'ts_type': num(t.ts_type), 'proto': num(t.ip_proto), 'sport': t.start_port, 'eport': t.end_port, 'saddr': t.start_addr.packed, 'eaddr': t.end_addr.packed}
+        tsi, tsr = (kid.tsi, kid.tsr) if str(kid.tsi.start_addr) == wd.addr_of('B') else (kid.tsr, kid.tsi)       # (as the PEER would send them: its own side first)
+        inner = [{'t': W.SA, 'proposals': [prop]}, {'t': W.NONCE, 'data': bytes(range(32))}, {'t': W.TSI, 'ts': [ts(tsi)]}, {'t': W.TSR, 'ts': [ts(tsr)]}]
+        if num(kid.mode) == 0:
+            inner.insert(0, {'t': W.NOTIFY, 'proto': 0, 'spi': b'', 'ntype': 16391, 'data': b''})
+        mid = peer_a.peer_msg_id
+        sa_b.my_msg_id = mid + 1                                                             # (the peer has used this Message ID)
+        return udp(probes.seal(sa_b, 36, False, mid, inner))
     if kind == 'bad_checksum':
         base = loop.legit.last
         if base is None or W.dec_header(base)['xchg'] == W.IKE_SA_INIT:
@@ -509,7 +530,7 @@ def hostile_event(kind, loop, rnd, prepared=False):
 KINDS = ('short', 'garbage', 'unconfigured_src', 'init_existing_spi', 'unknown_exchange', 'unknown_spi', 'binary_vendor', 'auth_malformed', 'bad_checksum',
          'loop_payload', 'delete_many', 'acquire_unconfigured', 'acquire_unknown_index', 'expire_unknown_spi', 'netlink_truncated', 'netlink_unknown_type',
          'control', 'send_gaierror', 'send_oserror', 'tick', 'wrong_spi_sealed', 'wrong_spi_clear', 'acquire_silent_peer', 'half_open_wrong_spi', 'netlink_fail_delsa', 'netlink_fail_newsa',
-         'acquire_legit_peer', 'wire_mutant', 'own_delete_then_expire', 'own_rekey_then_expire', 'expire_own_child', 'replay_last', 'own_request_then_stale_answer', 'half_open_unknown_exchange_x2', 'unknown_exchange_sealed_x2', 'unknown_exchange_x2', 'garbage_x2', 'wrong_spi_sealed_x2', 'auth_malformed_x2')
+         'acquire_legit_peer', 'wire_mutant', 'own_delete_then_expire', 'own_rekey_then_expire', 'expire_own_child', 'replay_last', 'own_request_then_stale_answer', 'half_open_unknown_exchange_x2', 'unknown_exchange_sealed_x2', 'unknown_exchange_x2', 'garbage_x2', 'wrong_spi_sealed_x2', 'auth_malformed_x2', 'auth_odd_child_spi')
 
 
 class Lazy(dict):
